@@ -17,8 +17,24 @@ def Op.WF : Op → Prop
   | .wmeta _ _ _ _ _ _ body _ d => d = body.isNone
   | _ => True
 
+/-- `Q` holds of every row function run inside a CAS-giving transaction (all of the family except the touch, which
+    is followed by arming the timer and is treated as a whole by `StepInvariant.touchOp`). -/
+structure TxnFamily (Q : String → RowFn → Prop) : Prop where
+  add : ∀ k exp v j, Q k (addRow k exp v j)
+  set : ∀ k exp pe v j, Q k (setRow k exp pe v j)
+  incr : ∀ k amt d exp, Q k (incrRow k amt d exp)
+  wcas : ∀ k exp cas v o, Q k (wcasRow k exp cas v o)
+  remove : ∀ k ifCas, Q k (removeRow k ifCas)
+  wwx : ∀ k val edits ifCas exp o m, Q k (wwxRow k val edits ifCas exp o m)
+  delx : ∀ k names, Q k (delxRow k names)
+  dsp : ∀ k names, Q k (dspRow k names)
+
+theorem Family.toTxn {Q : String → RowFn → Prop} (h : Family Q) : TxnFamily Q :=
+  { add := h.add, set := h.set, incr := h.incr, wcas := h.wcas, remove := h.remove, wwx := h.wwx, delx := h.delx, dsp := h.dsp }
+
 structure StepInvariant (W : Op → Prop) (I : State → Prop) : Prop where
-  txn : Family (fun k f => ∀ s c, I s → I (withNewCas s c (liftRow k f)).1)
+  txn : TxnFamily (fun k f => ∀ s c, I s → I (withNewCas s c (liftRow k f)).1)
+  touchOp : ∀ s c k exp, I s → I (opTouch s c k exp).1
   wmeta : ∀ s c k old new exp xs body j d, W (.wmeta c k old new exp xs body j d) → I s → I (opWriteWithMeta s c k old new exp xs body j d).1
   draw : ∀ s, I s → I { s with hlc := hlcNow s.hlc s.phys }
   restart : ∀ s p, I s → I (reopen s p)
@@ -34,12 +50,12 @@ def OpShape.All (Q : String → RowFn → Prop) : OpShape → Prop
   | .rejected _ => True
   | .row _ k f => Q k f
 
-theorem wwxShape_all {Q : String → RowFn → Prop} (hQ : Family Q)
+theorem wwxShape_all {Q : String → RowFn → Prop} (hQ : ∀ k val edits ifCas exp o m, Q k (wwxRow k val edits ifCas exp o m))
     (c k : String) (val : ValArg) (edits : List XEdit) (ifCas exp : Option Nat) (o : XOpts) (m : List (String × MacroKind)) :
     (wwxShape c k val edits ifCas exp o m).All Q := by
-  unfold wwxShape; split <;> simp [OpShape.All, hQ.wwx]
+  unfold wwxShape; split <;> simp [OpShape.All, hQ]
 
-theorem shapeWriteWithXattrs_all {Q : String → RowFn → Prop} (hQ : Family Q)
+theorem shapeWriteWithXattrs_all {Q : String → RowFn → Prop} (hQ : ∀ k val edits ifCas exp o m, Q k (wwxRow k val edits ifCas exp o m))
     (c k : String) (exp cas : Nat) (v : Option String) (sets : List (String × Option String)) (dels : Option (List String))
     (pe : Bool) (m : List (String × MacroKind)) : (shapeWriteWithXattrs c k exp cas v sets dels pe m).All Q := by
   unfold shapeWriteWithXattrs
@@ -50,7 +66,7 @@ theorem shapeWriteWithXattrs_all {Q : String → RowFn → Prop} (hQ : Family Q)
   · trivial
   · exact wwxShape_all hQ ..
 
-theorem shapeWriteTombstoneWithXattrs_all {Q : String → RowFn → Prop} (hQ : Family Q)
+theorem shapeWriteTombstoneWithXattrs_all {Q : String → RowFn → Prop} (hQ : ∀ k val edits ifCas exp o m, Q k (wwxRow k val edits ifCas exp o m))
     (c k : String) (exp cas : Nat) (sets : List (String × Option String)) (dels : Option (List String))
     (db : Bool) (m : List (String × MacroKind)) : (shapeWriteTombstoneWithXattrs c k exp cas sets dels db m).All Q := by
   unfold shapeWriteTombstoneWithXattrs
@@ -61,7 +77,7 @@ theorem shapeWriteTombstoneWithXattrs_all {Q : String → RowFn → Prop} (hQ : 
   · trivial
   · exact wwxShape_all hQ ..
 
-theorem shapeWriteResurrectionWithXattrs_all {Q : String → RowFn → Prop} (hQ : Family Q)
+theorem shapeWriteResurrectionWithXattrs_all {Q : String → RowFn → Prop} (hQ : ∀ k val edits ifCas exp o m, Q k (wwxRow k val edits ifCas exp o m))
     (c k : String) (exp : Nat) (v : Option String) (sets : List (String × Option String))
     (pe : Bool) (m : List (String × MacroKind)) : (shapeWriteResurrectionWithXattrs c k exp v sets pe m).All Q := by
   unfold shapeWriteResurrectionWithXattrs
@@ -71,7 +87,7 @@ theorem shapeWriteResurrectionWithXattrs_all {Q : String → RowFn → Prop} (hQ
     · trivial
     · exact wwxShape_all hQ ..
 
-theorem shapeUpdateXattrs_all {Q : String → RowFn → Prop} (hQ : Family Q)
+theorem shapeUpdateXattrs_all {Q : String → RowFn → Prop} (hQ : ∀ k val edits ifCas exp o m, Q k (wwxRow k val edits ifCas exp o m))
     (c k : String) (exp cas : Nat) (sets : List (String × Option String)) (m : List (String × MacroKind)) :
     (shapeUpdateXattrs c k exp cas sets m).All Q := by
   unfold shapeUpdateXattrs
@@ -94,15 +110,15 @@ theorem opWriteCas_inv (s : State) (c k : String) (exp cas : Nat) (v : Option St
 
 theorem opWriteWithXattrs_inv (s : State) (c k : String) (exp cas : Nat) (v : Option String) (sets : Sets) (dels : Option (List String))
     (pe : Bool) (m : Macros) (hs : I s) : I (opWriteWithXattrs s c k exp cas v sets dels pe m).1 :=
-  runShape_inv hI s _ (shapeWriteWithXattrs_all hI.txn ..) hs
+  runShape_inv hI s _ (shapeWriteWithXattrs_all hI.txn.wwx ..) hs
 
 theorem opWriteTombstoneWithXattrs_inv (s : State) (c k : String) (exp cas : Nat) (sets : Sets) (dels : Option (List String))
     (db : Bool) (m : Macros) (hs : I s) : I (opWriteTombstoneWithXattrs s c k exp cas sets dels db m).1 :=
-  runShape_inv hI s _ (shapeWriteTombstoneWithXattrs_all hI.txn ..) hs
+  runShape_inv hI s _ (shapeWriteTombstoneWithXattrs_all hI.txn.wwx ..) hs
 
 theorem opWriteResurrectionWithXattrs_inv (s : State) (c k : String) (exp : Nat) (v : Option String) (sets : Sets)
     (pe : Bool) (m : Macros) (hs : I s) : I (opWriteResurrectionWithXattrs s c k exp v sets pe m).1 :=
-  runShape_inv hI s _ (shapeWriteResurrectionWithXattrs_all hI.txn ..) hs
+  runShape_inv hI s _ (shapeWriteResurrectionWithXattrs_all hI.txn.wwx ..) hs
 
 theorem opUpdate_inv (fuel : Nat) : ∀ (s : State) (c k : String) (exp : Nat) (steps : List UpdStep) (calls : Nat) (seen : List String),
     I s → I (opUpdate fuel s c k exp steps calls seen).1 := by
@@ -141,12 +157,7 @@ theorem opWuwx_inv (fuel : Nat) : ∀ (s : State) (c k : String) (names : List S
           | exact opWriteWithXattrs_inv hI _ _ _ _ _ _ _ _ _ _ hs)
       | split)
 
-theorem opTouch_inv (s : State) (c k : String) (exp : Nat) (hs : I s) : I (opTouch s c k exp).1 := by
-  unfold opTouch armOnSuccess
-  have h : I (withNewCas s c (touchFn k exp)).1 := hI.txn.touch k exp s c hs
-  split
-  · exact hI.arm _ _ h
-  · exact h
+theorem opTouch_inv (s : State) (c k : String) (exp : Nat) (hs : I s) : I (opTouch s c k exp).1 := hI.touchOp s c k exp hs
 
 /-- One step preserves the invariant. -/
 theorem step_inv (s : State) (op : Op) (hwf : W op) (hs : I s) : I (step s op).1 := by
@@ -160,13 +171,13 @@ theorem step_inv (s : State) (op : Op) (hwf : W op) (hs : I s) : I (step s op).1
   | delete c k => exact hI.txn.remove k _ s c hs
   | touch c k exp => exact opTouch_inv hI s c k exp hs
   | incr c k amt d exp => exact hI.txn.incr k amt d exp s c hs
-  | setx c k sets => exact runShape_inv hI s _ (wwxShape_all hI.txn ..) hs
-  | rmx c k names cas => exact runShape_inv hI s _ (wwxShape_all hI.txn ..) hs
-  | updx c k exp cas sets m => exact runShape_inv hI s _ (shapeUpdateXattrs_all hI.txn ..) hs
+  | setx c k sets => exact runShape_inv hI s _ (wwxShape_all hI.txn.wwx ..) hs
+  | rmx c k names cas => exact runShape_inv hI s _ (wwxShape_all hI.txn.wwx ..) hs
+  | updx c k exp cas sets m => exact runShape_inv hI s _ (shapeUpdateXattrs_all hI.txn.wwx ..) hs
   | wwx c k exp cas v sets dels pe m => exact opWriteWithXattrs_inv hI _ _ _ _ _ _ _ _ _ _ hs
   | wtx c k exp cas sets dels db m => exact opWriteTombstoneWithXattrs_inv hI _ _ _ _ _ _ _ _ _ hs
   | wrx c k exp v sets pe m => exact opWriteResurrectionWithXattrs_inv hI _ _ _ _ _ _ _ _ hs
-  | uxdb c k xk exp cas xv m => exact runShape_inv hI s _ (wwxShape_all hI.txn ..) hs
+  | uxdb c k xk exp cas xv m => exact runShape_inv hI s _ (wwxShape_all hI.txn.wwx ..) hs
   | delx c k names => exact hI.txn.delx k names s c hs
   | dsp c k names => exact hI.txn.dsp k names s c hs
   | wmeta c k old new exp xs body j d => exact hI.wmeta s c k old new exp xs body j d hwf hs
@@ -283,10 +294,15 @@ theorem RowInvariant.step {P : Row → Prop} (hP : RowInvariant P) : StepInvaria
       incr := fun k a d e s c hs => opWithNewCas_row s c k _ (hP.fam.incr k a d e) hs
       wcas := fun k e cs v o s c hs => opWithNewCas_row s c k _ (hP.fam.wcas k e cs v o) hs
       remove := fun k ic s c hs => opWithNewCas_row s c k _ (hP.fam.remove k ic) hs
-      touch := fun k e s c hs => opWithNewCas_row s c k _ (hP.fam.touch k e) hs
       wwx := fun k val ed ic ex o m s c hs => opWithNewCas_row s c k _ (hP.fam.wwx k val ed ic ex o m) hs
       delx := fun k n s c hs => opWithNewCas_row s c k _ (hP.fam.delx k n) hs
       dsp := fun k n s c hs => opWithNewCas_row s c k _ (hP.fam.dsp k n) hs }
+  touchOp := fun s c k exp hs => by
+    unfold opTouch armOnSuccess
+    have h : StateAll P (withNewCas s c (touchFn k exp)).1 := opWithNewCas_row s c k _ (hP.fam.touch k exp) hs
+    split
+    · exact StateAll.of_colls_eq rfl h
+    · exact h
   wmeta := fun s c k old new exp xs body j d hwf hs => opWriteWithMeta_stateAll hP s c k old new exp xs body j d hwf hs
   purge := opPurge_stateAll
   draw := fun s hs => StateAll.of_colls_eq rfl hs
